@@ -3,19 +3,30 @@
 // C15: the message reader is total, atomic and faithful.  C09 side harness:
 // the RFC 2181 TTL clamp over all u32.
 //
-// Oracles are written here (record framing, header bit extraction) or come
-// from kani_common (RFC 1035 name decoder `ref_name`, first-chunk scanner
-// `ref_skip`); nothing in the oracle calls quandary code.
+// Oracles are written here (record framing, header bit extraction, RFC 2181
+// clamp, RFC 1035 4.1.4 name decoder `ref_name_into`, per-type RDATA layout)
+// or come from kani_common (`ref_skip`, `be16/be32`, `ref_name`); nothing in
+// the oracle calls quandary code.
 //
-// Two kinds of harness:
+// Three kinds of harness:
 //
 //  * "any": operations that do not allocate (header accessors, skip_question,
-//    skip_rr, peek_rr and the PeekRr field accessors / skip / drop) run on
-//    EVERY message of every length 12..=NMAX, all octets symbolic.
+//    skip_rr, peek_rr and the PeekRr field accessors / skip / drop, and
+//    sequences of them) run on EVERY message of every length 12..=NMAX, all
+//    octets symbolic.
 //  * "sk" (skeleton): operations that build a Box<Name> (read_question,
-//    read_rr, PeekRr::owner, PeekRr::parse) run on messages of one concrete
-//    length whose structure octets (label lengths, pointer octets, RDLENGTH)
-//    and data octets are symbolic in the positions listed in each `bound=`.
+//    read_rr, PeekRr::owner, PeekRr::parse) run on messages whose name
+//    STRUCTURE (label lengths, pointer octets) is concrete and whose label
+//    contents, CLASS, TTL, RDATA contents (and, for RDATA without names, both
+//    RDLENGTH octets) are symbolic; truncation points and RDLENGTH values of
+//    name-bearing RDATA are visited one concrete value per call.  Each
+//    `bound=` lists exactly what varies.
+//  * "seq": several operations in a row on one reader (read position != 12,
+//    pointers to names in earlier items, mark/rewind, at_eom).
+//
+// Helpers carry no kani::cover!: every satisfied cover makes CBMC print a
+// full trace (minutes for the longer harnesses), so each harness states one
+// or two combined witnesses.
 
 use super::*;
 use crate::kani_common::*;
@@ -468,7 +479,7 @@ fn c15_peek_rr_skip_any48() {
 /// skip_question, then two record operations, on every message: the read
 /// position of the second and third operation is whatever the earlier ones
 /// left (any offset up to the end of the message).
-fn seq_any<const NMAX: usize>() {
+fn seq_any<const NMAX: usize>() -> (bool, Out, Out, Out) {
     let buf: [u8; NMAX] = kani::any();
     let len: usize = kani::any();
     kani::assume(len >= 12 && len <= NMAX);
@@ -488,21 +499,35 @@ fn seq_any<const NMAX: usize>() {
     let r2 = skip_or_peek_at::<false, DROP>(msg, &mut r);
     let r3 = skip_or_peek_at::<true, DROP>(msg, &mut r);
     assert!(r.at_eom() == (r.message_to_cursor().len() == len), "[C15] at_eom iff the read position is the message length");
-    kani::cover!(
-        q && r1.ok && r1.has_rdata && r2.ok && r2.to_eom && msg[12] != 0 && !r3.ok,
-        "non-root question skipped, two records skipped up to the end of the message, a third refused"
-    );
-    kani::cover!(q && r1.ok && r2.late_err, "second record's owner fine, frame cut short: refused after two successful operations");
+    (q, r1, r2, r3)
 }
 
 // @harness props=C15 panics=C15,C01 kani="--no-assertion-reach-checks" tier=quick mem=4 t=1200
+//   fn="Reader::skip_question,Reader::peek_rr,PeekRr::skip,Reader::skip_rr,Reader::at_eom,PeekRr accessors"
+//   bound="every message of every length 12..=30, all octets symbolic; skip_question, peek_rr+skip, skip_rr, peek_rr+drop in sequence (each from wherever the previous one stopped); unwind 20"
+//   sym="buf:[u8;30], len in 12..=30"
+#[kani::proof]
+#[kani::unwind(20)]
+fn c15_seq_skip_any30() {
+    let (q, r1, r2, _r3) = seq_any::<30>();
+    kani::cover!(
+        q && r1.ok && r1.has_rdata && r1.to_eom && !r2.ok && !r2.late_err,
+        "question skipped, a record with RDATA skipped up to the end of the message, a further skip refused"
+    );
+}
+
+// @harness props=C15 panics=C15,C01 kani="--no-assertion-reach-checks" tier=thorough mem=6 t=2400
 //   fn="Reader::skip_question,Reader::peek_rr,PeekRr::skip,Reader::skip_rr,Reader::at_eom,PeekRr accessors"
 //   bound="every message of every length 12..=40, all octets symbolic; skip_question, peek_rr+skip, skip_rr, peek_rr+drop in sequence (each from wherever the previous one stopped); unwind 30"
 //   sym="buf:[u8;40], len in 12..=40"
 #[kani::proof]
 #[kani::unwind(30)]
 fn c15_seq_skip_any40() {
-    seq_any::<40>();
+    let (q, r1, r2, r3) = seq_any::<40>();
+    kani::cover!(
+        q && r1.ok && r1.has_rdata && r2.ok && r2.to_eom && !r3.ok,
+        "question skipped, two records skipped up to the end of the message, a third refused"
+    );
 }
 
 // --------------------------------------------------------------------------
@@ -1123,6 +1148,40 @@ fn c15_read_rr_a_sk() {
         "RDLENGTH 4: IN A and class-2 A cut after 3 octets refused, complete read; CH A: RDLENGTH 3 (root name + address) read, 2 and 4 refused"
     );
     kani::cover!(i27.late_err && o27.ok && !o27.to_eom, "RDLENGTH below 4: IN A refused, the same octets in class 2 read as opaque RDATA");
+}
+
+// ---- atomicity when only the RDATA is wrong ------------------------------------------------------
+//
+// The record frames (owner, fixed fields and RDLENGTH octets of RDATA are all
+// inside the message) but the RDATA is not laid out as its TYPE prescribes, so
+// the failure is detected last, after everything that could have moved the
+// read position.  Small on purpose: this is the cheapest harness that sees a
+// read position that was advanced before Rdata::read had its say.
+
+// @harness props=C15 panics=C15,C01 kani="--no-assertion-reach-checks" tier=quick mem=3 t=600 fn="Reader::read_rr,Reader::peek_rr,PeekRr::parse,Rdata::read,Rdata::validate_as_in_a,helpers::read_name_rdata"
+//   bound="(1) 12 symbolic header octets + root owner + TYPE A, CLASS IN, symbolic TTL, RDLENGTH 3 and 5, 5 symbolic RDATA octets (28 octets); (2) zero header + root owner + TYPE NS, CLASS IN, TTL 0, RDLENGTH 3, RDATA [L,0,0] with L symbolic (all 256 values: root + junk, one label, label running off the end, pointer, reserved types) (26 octets); read_rr and peek_rr+parse on each; unwind 6"
+//   stubs="S7" sym="h:[u8;12], ttl, rdata:[u8;5], L"
+#[kani::proof]
+#[kani::unwind(6)]
+#[kani::stub(arrayvec::ArrayVec::try_extend_from_slice, try_extend_model)]
+fn c15_rr_bad_rdata_atomic() {
+    let h: [u8; 12] = kani::any();
+    let d: [u8; 9] = kani::any();
+    let a3 = msg![h; 0, 0, 1, 0, 1, d[0], d[1], d[2], d[3], 0, 3, d[4], d[5], d[6], d[7], d[8]];
+    let a5 = msg![h; 0, 0, 1, 0, 1, d[0], d[1], d[2], d[3], 0, 5, d[4], d[5], d[6], d[7], d[8]];
+    let r3 = read_rr_cut::<READ, L_A>(&a3);
+    let p3 = read_rr_cut::<PEEK_PARSE, L_A>(&a3);
+    let r5 = read_rr_cut::<READ, L_A>(&a5);
+    let p5 = read_rr_cut::<PEEK_PARSE, L_A>(&a5);
+    let l: u8 = kani::any();
+    let ns = [0, 0, 0, 0, 0, 0, 0, 0, 0, 0, 0, 0, 0, 0, 2, 0, 1, 0, 0, 0, 0, 0, 3, l, 0, 0];
+    let rn = read_rr_cut::<READ, L_NAME>(&ns);
+    let pn = read_rr_cut::<PEEK_PARSE, L_NAME>(&ns);
+    kani::cover!(
+        r3.late_err && p3.late_err && r5.late_err && p5.late_err && rn.late_err && pn.late_err && l >= 0xc0,
+        "IN A with 3 and 5 octets and NS whose RDATA is a pointer plus junk: framed, refused by read_rr and by peek_rr+parse"
+    );
+    kani::cover!(rn.ok && pn.ok && rn.to_eom, "NS whose RDATA is exactly one label and the root: read");
 }
 
 // ---- owner that passes the peek but does not decode ---------------------------------
